@@ -3,7 +3,9 @@ The CLOSED reader model: `Fmt.Reader` with its number and unit parameters instan
 models of the code the Go reader actually calls (properties C03 and C04):
 
   atoi  := `Num.atoi`        bytesconv.Atoi       (fast path for 1–18 bytes, else ParseInt/ParseUint)
-  atof  := `Num.readerAtof`  reader.go `atof`     (int64 digit loop, else bytesconv.ParseFloat)
+  atof  := `Num.readerAtofMirror` reader.go `atof` (int64 digit loop, else the FULLY MIRRORED
+                             bytesconv.ParseFloat of Model/Num/DecSlow.lean: readFloat, atofHex,
+                             atof64exact, decimal.set / Shift / floatBits — no specification inside)
   tidy  := `Unit.Tidy.tidy`  benchunit.Tidy       (fast-path switch, substring filter, general path)
 
 The only parameter left is `uc`, the Unicode predicates on non-ASCII runes. With these oracles
@@ -20,6 +22,7 @@ import Model.Fmt.Reader
 import Model.Fmt.Files
 import Model.Num.Atoi
 import Model.Num.Atof
+import Model.Num.DecSlow
 import Model.Unit.Tidy
 
 namespace Fmt
@@ -35,8 +38,8 @@ def closedAtoi (b : Bytes) : Except NumErr Int :=
   | some e => .error (liftNumErr e)
 
 def closedAtof (b : Bytes) : Except NumErr UInt64 :=
-  match (Num.readerAtof b).err with
-  | none => .ok (Num.readerAtof b).val
+  match (Num.readerAtofMirror b).err with
+  | none => .ok (Num.readerAtofMirror b).val
   | some e => .error (liftNumErr e)
 
 /-- The oracles of the closed model. -/
